@@ -285,6 +285,9 @@ def unverified_list():
     return out
 
 
+# checks whose proof units establish the callee contracts applied here (re-verified by this check, see main.dependency_units)
+DEPENDENCIES = ['C04', 'C05', 'C12']
+
 META = {
     "level": "proof",
     "bounds": {"commands": "every row of specs/iec62386.py that is not marked unverified", "arguments": "every destination kind "
